@@ -404,10 +404,13 @@ func encDirect(o directOut) rec.V {
 // running one call
 
 type callResult struct {
-	observed rec.V
-	extra    rec.V
-	mirrors  []int // indices of native checks (or lists) this call depends on
-	lists    []int
+	observed      rec.V
+	extra         rec.V
+	mirrors       []int // indices of native checks (or lists) this call depends on
+	lists         []int
+	batchUnstable bool
+	top           int   // mirror of the top-level fields (eval, evals without items), -1 if none
+	item          []int // evals: mirror of every item, -1 when it cannot be built / is invalid
 }
 
 func resolveItem(top Item, it Item) Item {
@@ -469,20 +472,25 @@ func errV(err error) rec.V {
 func (r *runner) plan(c Call) callResult {
 	// registers the mirrors (first native pass)
 	var res callResult
+	res.top = -1
 	model := modelFromHeader(c.Header)
 	switch c.Kind {
 	case "eval":
 		if i := r.mirrorCheck(c.Item, model); i >= 0 {
 			res.mirrors = append(res.mirrors, i)
+			res.top = i
 		}
 	case "evals":
 		if len(c.Items) == 0 {
 			if i := r.mirrorCheck(c.Item, model); i >= 0 {
 				res.mirrors = append(res.mirrors, i)
+				res.top = i
 			}
 		}
 		for _, it := range c.Items {
-			if i := r.mirrorCheck(resolveItem(c.Item, it), model); i >= 0 {
+			i := r.mirrorCheck(resolveItem(c.Item, it), model)
+			res.item = append(res.item, i)
+			if i >= 0 {
 				res.mirrors = append(res.mirrors, i)
 			}
 		}
@@ -646,6 +654,160 @@ func (r *runner) execCall(c Call, relsOf func(string) ([]string, bool)) (observe
 	panic("unknown call kind " + c.Kind)
 }
 
+// expectation: what the driver itself expects the call to answer, from the mirrors.  It is used
+// ONLY to decide which calls get confirmation reruns (native nondeterminism); verdicts are the
+// oracle's.
+func directV(o directOut) rec.V {
+	if o.err {
+		return rec.L(rec.I(1), rec.I(o.status))
+	}
+	return rec.L(rec.I(0), rec.Bool(o.allowed))
+}
+
+func pairsV(ps []string) rec.V {
+	sort.Strings(ps)
+	var vs []rec.V
+	for _, s := range ps {
+		p := strings.SplitN(s, "\x00", 2)
+		vs = append(vs, rec.L(rec.S(p[0]), rec.S(p[1])))
+	}
+	return rec.L(rec.I(0), rec.L(vs...))
+}
+
+func (r *runner) expectation(c Call, res callResult, extra rec.V, asMirrors []int, asRels []string) (rec.V, bool) {
+	single := func(i int) (rec.V, bool) {
+		if i < 0 {
+			return "", false
+		}
+		o := r.checks[i].out
+		if o.err {
+			return rec.L(rec.I(1), rec.I(o.code)), true
+		}
+		return rec.L(rec.I(0), rec.L(rec.I(0), rec.Bool(o.allowed))), true
+	}
+	switch c.Kind {
+	case "eval":
+		return single(res.top)
+	case "evals":
+		if len(c.Items) == 0 {
+			v, ok := single(res.top)
+			if !ok {
+				return "", false
+			}
+			if strings.HasPrefix(string(v), "( 0") {
+				return rec.L(rec.I(0), rec.L(directV(r.checks[res.top].out))), true
+			}
+			return v, true
+		}
+		sem := 0
+		if c.Sem != nil {
+			sem = *c.Sem
+		}
+		if sem == 0 {
+			// execute_all: the native BatchCheck views
+			s := string(extra)
+			if strings.HasPrefix(s, "( 1") {
+				return extra, true
+			}
+			if strings.HasPrefix(s, "( 0") {
+				return extra, true
+			}
+			return "", false
+		}
+		if sem != 1 && sem != 2 {
+			return "", false
+		}
+		var vs []rec.V
+		for _, i := range res.item {
+			if i < 0 {
+				vs = append(vs, rec.L(rec.I(1), rec.I(400)))
+				if sem == 1 {
+					break
+				}
+				continue
+			}
+			o := r.checks[i].out
+			vs = append(vs, directV(o))
+			if sem == 1 && (o.err || !o.allowed) {
+				break
+			}
+			if sem == 2 && !o.err && o.allowed {
+				break
+			}
+		}
+		return rec.L(rec.I(0), rec.L(vs...)), true
+	case "ssearch", "rsearch":
+		if len(res.lists) == 0 {
+			return "", false
+		}
+		e := r.lists[res.lists[0]]
+		if e.err {
+			return rec.L(rec.I(1), rec.I(e.code)), true
+		}
+		var ps []string
+		if e.kind == 0 {
+			for _, u := range e.users {
+				switch u[0] {
+				case "0":
+					ps = append(ps, u[1]+"\x00"+u[2])
+				case "1":
+					ps = append(ps, u[1]+"\x00*")
+				}
+			}
+		} else {
+			for _, o := range e.out {
+				if t, id, ok := strings.Cut(o, ":"); ok {
+					ps = append(ps, t+"\x00"+id)
+				}
+			}
+		}
+		return pairsV(ps), true
+	case "asearch":
+		if len(asRels) == 0 {
+			return "", false
+		}
+		var names []string
+		for j, i := range asMirrors {
+			if o := r.checks[i].out; !o.err && o.allowed {
+				names = append(names, asRels[j])
+			}
+		}
+		sort.Strings(names)
+		return rec.L(rec.I(0), rec.LS(names)), true
+	}
+	return "", false
+}
+
+// viewsAgree: do the native BatchCheck views (extra) agree with the direct native Checks?
+func viewsAgree(extra string, r *runner, items []int) bool {
+	toks := strings.Fields(extra)
+	// ( 0 ( ( 0 b ) ( 1 st ) ... ) )
+	var views []string
+	for i := 3; i+1 < len(toks); i++ {
+		if toks[i] == "(" {
+			views = append(views, toks[i+1]+" "+toks[i+2])
+		}
+	}
+	if len(views) != len(items) {
+		return false
+	}
+	for j, i := range items {
+		if i < 0 {
+			return false
+		}
+		o := r.checks[i].out
+		switch {
+		case o.err && !strings.HasPrefix(views[j], "1 "):
+			return false
+		case !o.err && o.allowed && views[j] != "0 1":
+			return false
+		case !o.err && !o.allowed && views[j] != "0 0":
+			return false
+		}
+	}
+	return true
+}
+
 func callKindCode(k string) int {
 	switch k {
 	case "eval":
@@ -667,6 +829,8 @@ func (r *runner) runCase(d *caseDesc, relsOf func(string) ([]string, bool)) {
 		res      callResult
 		observed rec.V
 		extra    rec.V
+		asM      []int
+		suspect  bool
 	}
 	ps := make([]*planned, len(d.Calls))
 	for i, c := range d.Calls {
@@ -676,6 +840,7 @@ func (r *runner) runCase(d *caseDesc, relsOf func(string) ([]string, bool)) {
 		var extraMirrors []int
 		p.observed, p.extra, extraMirrors = r.execCall(p.c, relsOf)
 		p.res.mirrors = append(p.res.mirrors, extraMirrors...)
+		p.asM = extraMirrors
 		r.w.Stat("calls_"+p.c.Kind, 1)
 		if p.c.Kind == "evals" {
 			s := "none"
@@ -704,6 +869,87 @@ func (r *runner) runCase(d *caseDesc, relsOf func(string) ([]string, bool)) {
 		if isErr != e.err || code != e.code || strings.Join(out, ",") != strings.Join(e.out, ",") {
 			e.unstable = true
 			r.w.Stat("native_list_unstable", 1)
+		}
+	}
+	// confirmation reruns of the calls whose answer is not what the mirrors suggest: when a native
+	// mirror (Check, ListUsers, ListObjects, BatchCheck) does not answer the same every time, the
+	// native API itself is nondeterministic on this store (known for tuple cycles under an
+	// exclusion, C01 findings) and the call is dropped; otherwise it goes to the oracle as it is
+	for _, p := range ps {
+		var asRels []string
+		if p.c.Kind == "asearch" && p.c.R != nil {
+			asRels, _ = relsOf(p.c.R.T)
+		}
+		exp, ok := r.expectation(p.c, p.res, p.extra, p.asM, asRels)
+		execAll := p.c.Kind == "evals" && len(p.c.Items) > 0 && (p.c.Sem == nil || *p.c.Sem == 0)
+		if !ok || (p.c.Kind == "asearch" && len(p.asM) != len(asRels)) {
+			continue
+		}
+		suspect := string(exp) != string(p.observed)
+		if execAll && strings.HasPrefix(string(p.extra), "( 0") {
+			// views must also agree with the direct checks
+			if !viewsAgree(string(p.extra), r, p.res.item) {
+				suspect = true
+			}
+		}
+		if !suspect {
+			continue
+		}
+		r.w.Stat("calls_confirmed_by_reruns", 1)
+		authzenVaries := false
+		for k := 0; k < 8; k++ {
+			for _, i := range p.res.mirrors {
+				e := r.checks[i]
+				if o := r.nativeCheck(e); o != e.out && !e.unstable {
+					e.unstable = true
+					r.w.Stat("native_check_unstable", 1)
+				}
+			}
+			for _, i := range p.res.lists {
+				e := r.lists[i]
+				out, _, isErr, code := r.runList(e)
+				if (isErr != e.err || code != e.code || strings.Join(out, ",") != strings.Join(e.out, ",")) && !e.unstable {
+					e.unstable = true
+					r.w.Stat("native_list_unstable", 1)
+				}
+			}
+			obs, extra, _ := r.execCall(p.c, relsOf)
+			if string(extra) != string(p.extra) {
+				p.res.batchUnstable = true
+			}
+			if string(obs) != string(p.observed) {
+				authzenVaries = true
+			}
+		}
+		if p.res.batchUnstable {
+			r.w.Stat("native_batchcheck_unstable", 1)
+		}
+		if authzenVaries {
+			// the handlers are sequential code over the native calls: a varying answer on identical
+			// input can only come from varying native answers
+			r.w.Stat("authzen_answer_varies", 1)
+			p.res.batchUnstable = true
+		}
+		p.suspect = true
+	}
+	// a store on which the native API was seen to be nondeterministic taints every call whose answer
+	// is not the expected one (the mirror may have been sampled on the other side of the race)
+	tainted := false
+	for _, e := range r.checks {
+		tainted = tainted || e.unstable
+	}
+	for _, e := range r.lists {
+		tainted = tainted || e.unstable
+	}
+	for _, p := range ps {
+		tainted = tainted || p.res.batchUnstable
+	}
+	if tainted {
+		r.w.Stat("cases_with_nondeterministic_native_api", 1)
+		for _, p := range ps {
+			if p.suspect {
+				p.res.batchUnstable = true
+			}
 		}
 	}
 	var cvs, lvs, callvs []rec.V
@@ -742,7 +988,7 @@ func (r *runner) runCase(d *caseDesc, relsOf func(string) ([]string, bool)) {
 		}
 	}
 	for _, p := range ps {
-		stable := true
+		stable := !p.res.batchUnstable
 		for _, i := range p.res.mirrors {
 			if r.checks[i].unstable {
 				stable = false
